@@ -146,40 +146,51 @@ def plain_column(q, e):
     return e == "c1" if q["src"] == "group" else e in ("c1", "c2", "c3")
 
 
-DEV_SEQ = ["aggregate_keys_ignored", "distinct_window_twice", "expr_columns_dropped", "index_scan_drops_null_keys", "null_equals_all",
-           "ordinal_ignored", "setop_first_column", "unprojected_ignored"]
+DEV_SEQ = ["aggregate_keys_ignored", "distinct_window_twice", "expr_columns_dropped", "index_scan_drops_null_keys",
+           "join_duplicate_name_key", "join_limit0_returns_one", "join_topk_not_sorted", "join_window_first",
+           "null_equals_all", "ordinal_ignored", "setop_first_column", "unprojected_ignored"]
 
 
-def _dev_sets():
-    import itertools
-    sets = []
-    for r in (1, 2, 3):
-        for comb in itertools.combinations(range(len(DEV_SEQ)), r):
-            sets.append((r * 1000 + sum(2 ** i for i in comb), frozenset(DEV_SEQ[i] for i in comb)))
-    return [s for _, s in sorted(sets, key=lambda x: x[0])]
-
-
-DEV_SETS = _dev_sets()      # in the order of Rank(S) in OrderLimit.tla
-
-
-def applicable(q, devs):
+def applies(q, d):
+    """mirror of Applies(q, d)"""
     ks = q["keys"]
-    if "ordinal_ignored" in devs and not any(k["k"] == "ord" for k in ks):
-        return False
-    if "unprojected_ignored" in devs and all(projected(k, q["sel"]) for k in ks):
-        return False
-    if "aggregate_keys_ignored" in devs and not (q["src"] == "group" and any(k["k"] == "e" and not plain_column(q, k["x"]) for k in ks)):
-        return False
-    if "setop_first_column" in devs and not (q["src"] == "union" and ks):
-        return False
-    if "distinct_window_twice" in devs and not (q["src"] == "plain" and q["dist"] and (q["lim"] != NOLIM or q["off"] != NOLIM)):
-        return False
-    if "expr_columns_dropped" in devs and all(plain_column(q, e) for e in q["sel"]):
-        return False
-    if "index_scan_drops_null_keys" in devs and not (q.get("ix") and q["src"] == "plain" and q["w"] == "none" and len(ks) == 1
-                                                     and ks[0]["k"] == "e" and ks[0]["x"] == "c2"):
-        return False
-    return True
+    volcano = q["src"] != "union" and not (q["src"] == "join" and q["lim"] != NOLIM)
+    if d == "ordinal_ignored":
+        return volcano and any(k["k"] == "ord" for k in ks)
+    if d == "unprojected_ignored":
+        return volcano and any(not projected(k, q["sel"]) for k in ks)
+    if d == "aggregate_keys_ignored":
+        return q["src"] == "group" and any(k["k"] == "e" and not plain_column(q, k["x"]) for k in ks)
+    if d == "setop_first_column":
+        return q["src"] == "union" and bool(ks)
+    if d == "distinct_window_twice":
+        return q["src"] == "plain" and q["dist"] and (q["lim"] != NOLIM or q["off"] != NOLIM)
+    if d == "expr_columns_dropped":
+        return any(not plain_column(q, e) for e in q["sel"])
+    if d == "index_scan_drops_null_keys":
+        return bool(q.get("ix")) and q["src"] == "plain" and q["w"] == "none" and len(ks) == 1 and ks[0]["k"] == "e" and ks[0]["x"] == "c2"
+    if d == "join_duplicate_name_key":
+        return q["src"] == "join" and "c1" in q["sel"] and any(k["k"] == "e" and k["x"] == "c2" for k in ks)
+    if d == "join_limit0_returns_one":
+        return q["src"] == "join" and q["lim"] == 0
+    if d == "join_topk_not_sorted":
+        return q["src"] == "join" and q["lim"] != NOLIM and bool(ks)
+    if d == "join_window_first":
+        return q["src"] == "join" and bool(ks) and (q["lim"] != NOLIM or q["off"] != NOLIM)
+    if d == "null_equals_all":
+        return bool(ks)
+    raise ValueError(d)
+
+
+def dev_sets(q):
+    """mirror of DevSets(q), in the order of Rank(S)"""
+    import itertools
+    app = [i for i, d in enumerate(DEV_SEQ) if applies(q, d)]
+    sets = []
+    for r in (1, 2, 3, 4):
+        for comb in itertools.combinations(app, r):
+            sets.append((r * 10000 + sum(2 ** i for i in comb), frozenset(DEV_SEQ[i] for i in comb)))
+    return [s for _, s in sorted(sets, key=lambda x: x[0])]
 
 
 def stable_sort(rows, dirs):
@@ -235,30 +246,47 @@ def twice_from(obs, P, dirs, q, m, nulleq, acc, used, R0cls):
 
 
 def dev_admissible(obs, case, devs):
-    """mirror of DevAdmissible(obs, q, devs); obs: list of lists"""
+    """mirror of DevAdmissible(obs, q, devs) for a set of deviations that all apply; obs: list of lists"""
     q = case["q"]
-    if not applicable(q, devs):
-        return False
     ks = q["keys"]
-    base = case["proj"] if (q["dist"] and q["src"] == "plain") else case["rows"]
+    sel = q["sel"]
+    lim = 1 if ("join_limit0_returns_one" in devs and q["lim"] == 0) else q["lim"]
+    window_first = "join_window_first" in devs
+    if window_first or (q["dist"] and q["src"] == "plain"):
+        base = case["proj"]
+    else:
+        base = case["rows"]
     if "setop_first_column" in devs:
         dirs = [ks[0]["d"]]
         keyf = lambda r: [r["o"][0]]
+    elif "join_topk_not_sorted" in devs:
+        dirs = []
+        keyf = lambda r: []
     else:
         pos = [i for i, k in enumerate(ks)
                if not (("ordinal_ignored" in devs and k["k"] == "ord")
-                       or ("unprojected_ignored" in devs and not projected(k, q["sel"]))
+                       or ("unprojected_ignored" in devs and not projected(k, sel))
                        or ("aggregate_keys_ignored" in devs and k["k"] == "e" and not plain_column(q, k["x"])))]
         dirs = [ks[i]["d"] for i in pos]
-        keyf = lambda r: [r["k"][i] for i in pos]
+        if "join_duplicate_name_key" in devs:
+            # ORDER BY y.id (c2) reads x.id (c1), which is in the select list
+            c1 = sel.index("c1")
+            keyf = lambda r: [r["o"][c1] if (ks[i]["k"] == "e" and ks[i]["x"] == "c2") else r["k"][i] for i in pos]
+        else:
+            keyf = lambda r: [r["k"][i] for i in pos]
     if "expr_columns_dropped" in devs:
-        keep = [i for i, e in enumerate(q["sel"]) if plain_column(q, e)]
+        keep = [i for i, e in enumerate(sel) if plain_column(q, e)]
         outf = lambda r: [r["o"][i] for i in keep]
     else:
         outf = lambda r: r["o"]
     P = [{"o": outf(r), "k": keyf(r)} for r in base]
     if "index_scan_drops_null_keys" in devs and dirs:
         P = [r for r in P if r["k"][0] != N]
+    if window_first:
+        P = window(P, lim, q["off"])
+        wl, wo = NOLIM, NOLIM
+    else:
+        wl, wo = lim, q["off"]
     nulleq = "null_equals_all" in devs
     if "distinct_window_twice" in devs:
         if nulleq and not any(v == N for r in P for v in r["k"]):
@@ -270,9 +298,9 @@ def dev_admissible(obs, case, devs):
     if nulleq:
         if not any(v == N for r in R for v in r["k"]):
             return False
-        lo, hi = win(len(R), q["lim"], q["off"])
+        lo, hi = win(len(R), wl, wo)
         return len(obs) == max(hi - lo, 0) and match_from(obs, R, dirs, 0, None, frozenset())
-    return admissible(obs, R, classes(R, dirs), q["lim"], q["off"])
+    return admissible(obs, R, classes(R, dirs), wl, wo)
 
 
 def verdict(obs, case, ix=False):
@@ -281,7 +309,7 @@ def verdict(obs, case, ix=False):
     q = case["q"]
     if admissible(obs, case["rows"], [r["c"] for r in case["rows"]], q["lim"], q["off"]):
         return "ok", []
-    for devs in DEV_SETS:
+    for devs in dev_sets(q):
         if dev_admissible(obs, case, devs):
             return "dev", sorted(devs)
     return "bad", []
@@ -289,18 +317,25 @@ def verdict(obs, case, ix=False):
 
 # ----------------------------------------------------------------------------- judging one observation
 def path_class(plan, q):
+    """ordering mechanism of the plan, plus the executor that runs it when that is not the Volcano pipeline"""
     ops = plan.split("/")
     if "TopK" in ops:
-        return "topk"
-    if "Sort" in ops:
-        return "sort"
-    if not q["keys"]:
-        return "unordered"
-    if any(o.startswith("IndexScan") for o in ops):
-        return "index_scan"
-    if "TableScanRev" in ops or "TableScan" in ops:
-        return "pk_scan"
-    return "other"
+        p = "topk"
+    elif "Sort" in ops:
+        p = "sort"
+    elif not q["keys"]:
+        p = "unordered"
+    elif any(o.startswith("IndexScan") for o in ops):
+        p = "index_scan"
+    elif "TableScanRev" in ops or "TableScan" in ops:
+        p = "pk_scan"
+    else:
+        p = "other"
+    if any("Join" in o for o in ops):
+        p += "/join"          # hand-written join loop of Database::query (its own sort / limit code)
+    elif "SetOp" in ops:
+        p += "/setop"         # set_ops.rs (its own sort / limit code)
+    return p
 
 
 def to_spec_rows(rows):
@@ -673,7 +708,7 @@ def run(chk):
             pool["dev"].append((cq, obs, mv))
         elif kind in ("count", "rows", "order", "shape"):
             pool["bad"].append((cq, obs, mv))
-    per = 3000 if thorough else 500
+    per = 1500 if thorough else 500
     pairs = []
     for name in ("ok_tie", "dev", "bad"):
         p = pool[name]
